@@ -119,7 +119,7 @@ def with_colon(role: 'str') -> 'str':
     return role
 
 
-@spec(uninterpreted=True)
+@spec(uninterpreted=True, native='model._canonicalize_inversion(role)')
 def canon_inv(model: 'Model', role: 'str') -> 'str':
     """the result of Model._canonicalize_inversion (characterised by its contract)"""
 
